@@ -194,7 +194,8 @@ theorem PyBand_items_pinned :
       ["distance_length_0", "distance_skip_0", "distance_skip_1", "distance_j_start_0", "distance_j_end_0",
        "distance_j_start_1", "distance_skip_2", "distance_ic_0", "warping_paths_j_start_0", "warping_paths_j_end_0",
        "warping_paths_j_start_1", "warping_paths_affinity_j_start_0", "warping_paths_affinity_j_start_1",
-       "warping_paths_affinity_j_end_0"] ∧
+       "warping_paths_affinity_j_end_0", "lb_keogh_imin_diff_0", "lb_keogh_imax_diff_0", "lb_keogh_imin_0",
+       "lb_keogh_imax_0"] ∧
     Gen.PyBand.distanceSubscripts.length = 13 ∧ Gen.PyBand.distanceLoops.length = 4 := by decide
 
 /- non-vacuity: a concrete row of a concrete pair satisfies the hypotheses of the inner-loop theorem -/
